@@ -65,6 +65,12 @@ def run(ctx, rep):
     okv = len(vecs) == 1 and len(vecs[0].get('args') or []) == 1
     rep.ob(okv, 'R09.1', 'symbols::Context::new', 'base scope', 'a new context starts with one scope', 'src/symbols.rs:%d' % cn['line'])
 
+    rep.rule('R09.6', 'every node of a statement / argument / element list is compiled (names in all of them are resolved)')
+    b6 = [v for v in R['violations'] if v['oblig'] == 'R09.6']
+    for v in b6:
+        rep.bad('R09.6', 'compiler::Compiler::' + v['method'], v['construct'], v['text'], 'src/compiler.rs')
+    if not b6:
+        rep.good('R09.6', 'compiler::Compiler', 'loops over syntax-tree lists', 'no loop over a list of syntax-tree nodes has an early exit other than an error', 'src/compiler.rs')
     # R09.2 lookup direction
     res = S.method(SYM, 'Context', 'resolve')
     dfn = S.method(SYM, 'Context', 'define')
@@ -103,6 +109,24 @@ def run(ctx, rep):
     if verdict_names == 'latest-first(rev)':
         rep.bad('R09.2', 'symbols::Context::resolve', 'index correction', 'rev().position() yields an index from the end; it must be converted', 'src/symbols.rs:%d' % res['line'])
 
+    for im in S.impls(SYM):
+        for it in im['items']:
+            if it['k'] == 'fn' and 'Option<Symbol>' in it['output'].replace(' ', '') and it['name'] != 'resolve':
+                fl = find_all(it['body'], lambda n: n.get('k') == 'for')
+                srch = find_all(it['body'], lambda n: n.get('k') == 'mcall' and n['method'] in ('position', 'rposition', 'find', 'rfind'))
+                okx = True
+                for lp in fl:
+                    base, ch = iter_chain(lp['iter'])
+                    ms = [m for m, _ in ch]
+                    if 'iter' in ms and 'rev' not in ms and 'symbols' in render(lp['iter']):
+                        okx = False
+                for sr in srch:
+                    if sr['method'] in ('position', 'find'):
+                        b2, ch2 = iter_chain(sr)
+                        if 'rev' not in [m for m, _ in ch2]:
+                            okx = False
+                rep.ob(okx, 'R09.2', 'symbols::%s::%s' % (im['self_ty'], it['name']), 'lookup order',
+                       'every name lookup scans scopes innermost-first and a scope latest-first', 'src/symbols.rs:%d' % it['line'])
     # R09.3 visibility
     sr = F.fn('symbols::SymbolTable::resolve')
     consulted = []
